@@ -451,6 +451,16 @@ func main() {
 			infra("replay needs a file")
 		}
 		os.Exit(replay(prop, fs.Arg(0), race))
+	case "dump":
+		// debugging aid: run a scenario file once and write its diagnostics and answers to <file>.dump
+		if fs.NArg() < 1 {
+			infra("dump needs a file")
+		}
+		worker, _ := build(false)
+		abs, _ := filepath.Abs(fs.Arg(0))
+		runWorker(worker, Job{Prop: prop, Mode: "dump", Replays: []string{abs}, HangSec: 60}, false, func(ResultLine) {})
+		cleanup()
+		os.Exit(0)
 	default:
 		infra("unknown mode %s", mode)
 	}
